@@ -4,9 +4,9 @@ from ..core import *
 from ..ops import *
 from .c04 import judge
 
-IMPORTS = 'From OFV Require Import Base.Cplx Sem.PauliSem Model.SymbolicOp Model.QubitOp Check.Schedules.\n'
-NEEDS = ['Check/Schedules']
-LEVEL = 'translation_validation'
+IMPORTS = 'From OFV Require Import Base.Cplx Sem.PauliSem Model.SymbolicOp Model.QubitOp Model.Grouping Check.Schedules.\n'
+NEEDS = ['Check/Schedules', 'Model/Grouping', 'Thm/C18/Grouping']
+LEVEL = 'proof'
 
 def centry(e):
     if isinstance(e, tuple):
@@ -103,8 +103,26 @@ def run(ctx):
         op = mk_qubit(of, rand_qubit_terms(rng, nq, rng.randint(1, 14), maxlen=rng.choice([2, 3, 5])))
         for seed in ([None] + rng.sample(range(1000), N(3, 8))):
             rp = {'call': 'group_into_tensor_product_basis_sets', 'seed': seed, 'terms': {repr(t): repr(c) for t, c in op.terms.items()}}
-            g = guarded('grouping', rp, lambda: qp.group_into_tensor_product_basis_sets(op, seed))
+            shuffles = []
+            def recorded():
+                # record every shuffle the implementation performs (the proved model takes them as its `choose`)
+                import numpy
+                orig = numpy.random.RandomState
+                class Rec:
+                    def __init__(self, sd=None): self.r = orig(sd)
+                    def shuffle(self, x): self.r.shuffle(x); shuffles.append(list(x))
+                    def __getattr__(self, a): return getattr(self.r, a)
+                numpy.random.RandomState = Rec
+                try: return qp.group_into_tensor_product_basis_sets(op, seed)
+                finally: numpy.random.RandomState = orig
+            g = guarded('grouping', rp, recorded)
             if g is None: continue
+            if len(shuffles) == len(op.terms):
+                orders = '(' + clist(['(' + clist([coq_qterm(b) for b in sh]) + ' : list gkey)' for sh in shuffles]) + ' : list (list gkey))'
+                res_lit = '(' + clist([cpair(coq_qterm(k), '(' + clist([cpair(coq_qterm(t), cC(c)) for t, c in v.terms.items()]) + ' : list (pword * C))') for k, v in g.items()]) + ' : list group)'
+                add('grouping_model', '(grouping_model_ok %s %s %s)' % (orders, coq_qop(op), res_lit), dict(rp, shuffles=repr(shuffles)), key=(repr(op.terms), seed))
+            else:
+                ctx.violation('C18 grouping: the implementation no longer shuffles the bases once per term (model tie lost)', rp, no_input=True)
             lit = '(' + clist([cpair(coq_qterm(k), coq_qop(v)) for k, v in g.items()]) + ' : list (pword * qop))'
             add('grouping', '(grouping_ok %s %s)' % (coq_qop(op), lit), rp, key=(repr(op.terms), seed))
         if i < 2: ctx.sample({'part': 'grouping', 'operator': str(op), 'groups': {repr(k): str(v) for k, v in g.items()}})
